@@ -667,6 +667,62 @@ func (r *Rig) Exec(idx int, st *Step, prev *Step) *Drift {
 		if want := st.ArgBool(1); want != passed {
 			return r.drift(idx, "filter", "update %q passedFilter=%v, specification predicts %v", upd, passed, want)
 		}
+		if s.idle {
+			// inside IDLE the responders are handled at once and their responses pushed to the client
+			r.readIdle(s, st, idx)
+		}
+	case "IdleBegin":
+		tag := s.c.NextTag()
+		if err := s.c.Write([]byte(tag + " IDLE\r\n")); err != nil {
+			return r.drift(idx, "connection", "IDLE: %v", err)
+		}
+		var before []wire.Line
+		for {
+			l, err := s.c.ReadLine(wire.DefaultTimeout)
+			if err != nil {
+				return r.drift(idx, "connection", "connection lost / no completion for %s (closed=false timeout=true): %v", st.Describe(), err)
+			}
+			if strings.HasPrefix(l.Text, "+") {
+				break
+			}
+			if strings.HasPrefix(l.Text, tag+" ") {
+				return r.drift(idx, "status", "%s answered %q, specification predicts a continuation request", st.Describe(), l.Text)
+			}
+			before = append(before, l)
+		}
+		r.logf("[%s] IDLE -> + (continuation)", s.name)
+		r.applyToMirror(s, st, idx, before, "Idle")
+		s.idle, s.idleTag = true, tag
+		r.readIdle(s, st, idx)
+		s = nil
+	case "IdleDone":
+		if err := s.c.Write([]byte("DONE\r\n")); err != nil {
+			return r.drift(idx, "connection", "DONE: %v", err)
+		}
+		var lines []wire.Line
+		status := ""
+		for status == "" {
+			l, err := s.c.ReadLine(wire.DefaultTimeout)
+			if err != nil {
+				return r.drift(idx, "connection", "connection lost / no completion for %s (closed=false timeout=true): %v", st.Describe(), err)
+			}
+			if strings.HasPrefix(l.Text, s.idleTag+" ") {
+				status = strings.Fields(strings.TrimPrefix(l.Text, s.idleTag+" "))[0]
+			} else {
+				lines = append(lines, l)
+			}
+		}
+		r.logf("[%s] DONE -> %s", s.name, status)
+		r.applyToMirror(s, st, idx, lines, "Idle")
+		s.idle, s.idleTag = false, ""
+		if status != "OK" {
+			return r.drift(idx, "status", "DONE answered %s, specification predicts OK", status)
+		}
+		// what the sender goroutine of IDLE was still writing arrives in front of this NOOP's completion (the session has no
+		// responders queued at this point: the NOOP is a no-op of the model)
+		nb := s.c.Cmd("NOOP")
+		r.applyToMirror(s, st, idx, nb.Untagged, "Noop")
+		s = nil
 	case "ConnSetBoxes":
 		if d := r.connSetBoxes(idx, st, prev); d != nil {
 			return d
@@ -824,6 +880,20 @@ func (r *Rig) Exec(idx int, st *Step, prev *Step) *Drift {
 		}
 	}
 	return nil
+}
+
+// readIdle reads what the server pushes to an idling client until the client knows what the specification predicts (or
+// nothing arrives for the client's time-out: the comparison after the step then reports the difference).
+func (r *Rig) readIdle(s *rsess, st *Step, idx int) {
+	deadline := time.Now().Add(wire.DefaultTimeout)
+	for !mirrorConforms(s.mirror, st.Mirrors[s.name]) && time.Now().Before(deadline) {
+		l, err := s.c.ReadLine(time.Until(deadline))
+		if err != nil {
+			return
+		}
+		r.logf("      (idle) %s", l.String())
+		r.applyToMirror(s, st, idx, []wire.Line{l}, "Idle")
+	}
 }
 
 // reconnect replaces the connection of a model session by a new gated one (the client logs in again).
